@@ -83,6 +83,9 @@ func ruleTB5() Rule {
 					return true
 				})
 			}
+			// fields that hold the position of an opening one-character delimiter whose closing
+			// counterpart has the same spelling: the end of an empty pair is two characters on
+			paired := map[string]bool{}
 			// copies made by the lexer (CmdSubst.Right, ArithExp.Right)
 			for _, f := range c.funcsOfPkg("parser", false) {
 				fi := f.Info()
@@ -95,10 +98,30 @@ func ruleTB5() Rule {
 					if !strings.HasPrefix(tn, "ast.") {
 						return true
 					}
+					// a node the lexer builds itself with the spelling of its one-character token
+					// next to the position (`&ast.Quote{TokPos: l.pos, Tok: string(r)}`)
+					oneRune := false
+					for _, el := range cl.Elts {
+						if kv, ok := el.(*ast.KeyValueExpr); ok {
+							if conv, isCall := ast.Unparen(kv.Value).(*ast.CallExpr); isCall && len(conv.Args) == 1 {
+								if tv, has := fi.Types[conv.Fun]; has && tv.IsType() && tv.Type.String() == "string" {
+									if at, hasA := fi.Types[conv.Args[0]]; hasA && at.Type != nil && at.Type.String() == "rune" {
+										oneRune = true
+									}
+								}
+							}
+						}
+					}
 					for _, el := range cl.Elts {
 						kv, ok := el.(*ast.KeyValueExpr)
 						if !ok {
 							continue
+						}
+						if oneRune && strings.HasSuffix(exprStr(kv.Key), "Pos") {
+							if tv, has := fi.Types[kv.Value]; has && tv.Type != nil && strings.HasSuffix(tv.Type.String(), "ast.Pos") {
+								note(strings.TrimPrefix(tn, "ast.")+"."+exprStr(kv.Key), "\x00")
+								paired[strings.TrimPrefix(tn, "ast.")+"."+exprStr(kv.Key)] = true
+							}
 						}
 						if v := core.FieldOf(fi, kv.Value); v != nil && v.Pkg() != nil && v.Pkg().Name() == "ast" {
 							src := ownerOfField(fi, kv.Value) + "." + v.Name()
@@ -141,7 +164,7 @@ func ruleTB5() Rule {
 					}
 					var bad []string
 					for sp := range sps {
-						if len(sp) != int(nv) {
+						if len(sp) != int(nv) && !(paired[field] && int(nv) == 2*len(sp)) {
 							bad = append(bad, sp)
 						}
 					}
